@@ -22,6 +22,16 @@ Inductive xout :=
    jobs in order; a job without run id consumes one request; the job at which
    the k-th request is made raises: it and every later job stay untouched.
    `k = 0` = no (more) failure pending. *)
+(* `_jobs.remove(j)` takes out ONE copy of the job: after a refused request the
+   kept job can be released again before the retry and then sits on the list
+   twice (in histories without refused requests the list has no duplicates and
+   Sched.rem agrees) *)
+Fixpoint rem1 (x : nat) (l : list nat) : list nat :=
+  match l with [] => [] | y :: r => if Nat.eqb y x then r else y :: rem1 x r end.
+Definition put_job1 (c : cfg) (acc : state * list out) (x : node) : state * list out :=
+  let '(s', o) := put_job c acc x in
+  (set_farm s' (rem1 x (jobs (fst acc))) (cluster s') (busy s') (workers s') (inflight s'), o).
+
 Fixpoint put_jobs_fault (c : cfg) (k : nat) (js : list node) (acc : state * list out)
   : (state * list out) * bool :=
   match js with
@@ -29,8 +39,8 @@ Fixpoint put_jobs_fault (c : cfg) (k : nat) (js : list node) (acc : state * list
   | x :: r =>
       match rid (getn (ns (fst acc)) x), k with
       | None, 1 => (acc, true)                                  (* rerunid(j) raises *)
-      | None, S (S k') => put_jobs_fault c (S k') r (put_job c acc x)
-      | _, _ => put_jobs_fault c k r (put_job c acc x)
+      | None, S (S k') => put_jobs_fault c (S k') r (put_job1 c acc x)
+      | _, _ => put_jobs_fault c k r (put_job1 c acc x)
       end
   end.
 
